@@ -167,6 +167,16 @@ impl Unifiable {
         // Anonymous variable $_ unifies with everything.
         if Unifiable::Anonymous == *other { return Some(Rc::clone(ss)); }
 
+        // The unify method of a function evaluates the function.
+        // If the other term is a function, call its unify method.
+        if let Unifiable::SFunction{name: _, terms: _} = other {
+            match self {
+                Unifiable::SFunction{name: _, terms: _} |
+                Unifiable::Anonymous => {},
+                _ => { return other.unify(self, ss); },
+            }
+        }
+
         match self {
 
             // $_ unifies with everything.
